@@ -139,6 +139,10 @@ static void vd_run(int k) {
       pid_t c = vfork(); if (c == 0) { vd_run(st->arg); _exit(0); }
     } else if (st->op == 't') {
       pthread_create(&th[nth++], NULL, vd_thread, (void *)(long)st->arg);
+    } else if (st->op == 'x') {
+      _exit(st->arg);
+    } else if (st->op == 'p') {
+      struct timespec ts = {st->arg / 1000, (st->arg % 1000) * 1000000L}; nanosleep(&ts, NULL);
     } else if (st->op == 'w') {
       for (int j = 0; j < nth; j++) pthread_join(th[j], NULL);
       nth = 0; while (waitpid(-1, NULL, 0) > 0) {}
@@ -155,7 +159,7 @@ static int verdicts(const char *script, const char *dir, const char *outp) {
     if (!strcmp(op, "task")) { cur = a % VD_MAXT; continue; }
     if (vd_n[cur] >= VD_MAXS) continue;
     struct vd_step *st = &vd_tasks[cur][vd_n[cur]++]; st->arg = a; st->dec = d[0];
-    st->op = !strcmp(op, "s") ? 's' : !strcmp(op, "fork") ? 'f' : !strcmp(op, "vfork") ? 'v' : !strcmp(op, "thread") ? 't' : 'w';
+    st->op = !strcmp(op, "s") ? 's' : !strcmp(op, "fork") ? 'f' : !strcmp(op, "vfork") ? 'v' : !strcmp(op, "thread") ? 't' : !strcmp(op, "pause") ? 'p' : !strcmp(op, "exit") ? 'x' : 'w';
   }
   fclose(in);
   { char l0[64]; int n0 = snprintf(l0, sizeof l0, "p %d\n", (int)getpid()); syscall(SYS_write, vd_out, l0, n0); }
